@@ -424,3 +424,68 @@ def chain_locals(fn, local, depth=12):
             break
         out.append(cur)
     return out
+
+
+def fmt_template_pieces(txt):
+    """Decode a core::fmt template constant (as printed by rustc: b"...") into
+    a list of literal pieces and '{}' placeholders.  Returns None if `txt` is
+    not such a constant."""
+    import ast
+    if not (txt.startswith('b"') or txt.startswith("b'")):
+        return None
+    try:
+        raw = ast.literal_eval(txt)
+    except Exception:  # noqa: BLE001
+        return None
+    out = []
+    i = 0
+    n = len(raw)
+    while i < n:
+        b = raw[i]
+        i += 1
+        if b == 0:
+            break
+        if b < 0x80:
+            out.append(raw[i:i + b].decode("utf-8", "replace"))
+            i += b
+        elif b == 0x80:
+            ln = raw[i] | (raw[i + 1] << 8)
+            out.append(raw[i + 2:i + 2 + ln].decode("utf-8", "replace"))
+            i += 2 + ln
+        else:
+            skip = (4 if b & 1 else 0) + (2 if b & 2 else 0) + (2 if b & 4 else 0) + (2 if b & 8 else 0)
+            i += skip
+            out.append("{}")
+    return out
+
+
+def string_literals(fn, include_promoted=True):
+    """All string-ish literals in a body: ('str', s, where) and ('fmt', [pieces], where)."""
+    out = []
+
+    def scan_body(blocks):
+        for blk in blocks:
+            for s in blk["s"]:
+                if "rv" not in s:
+                    continue
+                for o in rvalue_operands(s["rv"]):
+                    k = op_const(o)
+                    if not k:
+                        continue
+                    if "str" in k:
+                        out.append(("str", k["str"], s.get("us") or s.get("sp")))
+                    elif "txt" in k and k["ty"].startswith("&[u8;"):
+                        p = fmt_template_pieces(k["txt"])
+                        if p is not None:
+                            out.append(("fmt", p, s.get("us") or s.get("sp")))
+            t = blk["t"]
+            if t["k"] == "call":
+                for a in t["args"]:
+                    k = op_const(a)
+                    if k and "str" in k:
+                        out.append(("str", k["str"], t.get("us") or t.get("sp")))
+    scan_body(fn.blocks)
+    if include_promoted:
+        for p in fn.d.get("promoted", []):
+            scan_body(p["blocks"])
+    return out
